@@ -172,6 +172,9 @@ Definition legal (prev next : option node) : bool :=
 Definition winv (st : wst) (p : str) (prev next : option node) : Prop :=
   (0 <= w_off st)%Z /\ all_ws p /\ (w_off st = 0%Z -> p <> []) /\ (p <> [] -> legal prev next = true).
 
+Lemma legal_none next : legal None next = true.
+Proof. destruct next; reflexivity. Qed.
+
 Lemma winv_pos st prev next : (0 < w_off st)%Z -> winv st [] prev next.
 Proof. intros H. repeat split; [lia|constructor|lia|congruence]. Qed.
 
@@ -863,17 +866,17 @@ Section Main.
     let '(cs2, st2) := wkids L pp aftp nk st1 (S i) (Some x) r in (cs ++ cs2, st2).
   Proof. reflexivity. Qed.
 
-  Lemma closing_spec L st : (0 <= w_off st)%Z ->
-    exists w, all_ws w /\ sees (fst (closing_of L st)) w /\ (0 <= w_off (snd (closing_of L st)))%Z.
+  Lemma closing_sees L st : exists w, all_ws w /\ sees (fst (closing_of L st)) w.
   Proof.
-    intros Ho. unfold closing_of. destruct (has_ind ind).
-    - pose proof (emit_ws_indent st (indent ind L) (ws_indent_indent ind ind_ws L)) as Hw.
-      pose proof (emit_nonneg st (indent ind L) Ho) as Hn. unfold emit_raw.
+    unfold closing_of. destruct (has_ind ind).
+    - pose proof (emit_ws_indent st (indent ind L) (ws_indent_indent ind ind_ws L)) as Hw. unfold emit_raw.
       destruct (emit st (indent ind L)) as [d st']. cbn [fst snd] in *.
-      exists d. split; [apply all_ws_ws_indent; exact Hw|]. split; [|exact Hn].
+      exists d. split; [apply all_ws_ws_indent; exact Hw|].
       pose proof (sees_raw d) as Hs. rewrite (unesc_ws d Hw) in Hs. exact Hs.
-    - exists []. split; [constructor|]. split; [apply sees_nil|exact Ho].
+    - exists []. split; [constructor|apply sees_nil].
   Qed.
+  Lemma closing_nonneg L st : (0 <= w_off st)%Z -> (0 <= w_off (snd (closing_of L st)))%Z.
+  Proof. intros Ho. unfold closing_of. destruct (has_ind ind); [apply emit_raw_nonneg|]; exact Ho. Qed.
 
   (* the only child of an element, a text with content, at the start of a line *)
   Lemma only_text_step L st rp aft k : core k -> w_off st = 0%Z ->
@@ -1034,7 +1037,7 @@ Section Main.
       unfold OUTw. cbn [fst snd]. rewrite app_nil_r. rewrite map_app, Hs.
       destruct (OUT_cf cf st1 Hcf) as (w & Hw & Ecf). rewrite Ecf.
       rewrite <- (app_nil_r (txt w)). rewrite ctext_txt by exact I. rewrite app_nil_r.
-      rewrite txt_nonnull by (rewrite <- (app_assoc (indent ind L ++ k' ++ NL)); apply null_mid; exact (proj1 Hv)).
+      rewrite txt_nonnull by (apply null_mid; exact (proj1 Hv)).
       cbn [ctext]. rewrite <- !app_assoc. rewrite (app_assoc p).
       change k with ([] ++ k) at 1. rewrite <- (app_nil_r k) at 1. change (@nil char) with (optsp false) at 1 2.
       apply (wv_X Start false false k k' (p ++ indent ind L) (NL ++ w) [] []);
@@ -1064,11 +1067,36 @@ Section Main.
       destruct (emit_ws_step st [] None (Some (Text [SP])) NL (winv_pos st _ _ Ho) ws_indent_NL (or_intror eq_refl))
         as (w0 & E0 & Hw0 & Hs0 & Hi0 & Hk0).
       destruct (emit_raw st NL) as [c0 st1]. cbn [fst snd] in *. subst c0. cbn [length].
-      rewrite wk_cons, wk_nil. cbn [hd_error].
-      destruct (w_text_space ind width req ind_ws (S L) st1 [0%nat]%list None None aft ([] ++ w0)) as (w' & Hs & Hw' & Hi' & Hne).
-      { admit. }
-      { exact I. }
-      admit.
-    - admit.
-  Admitted.
+      rewrite wk_cons. cbn [hd_error].
+      destruct (w_text_space ind width req ind_ws (S L) st1 (0%nat :: rp) None None aft ([] ++ w0) Hi0 I) as (w' & Hs & Hw' & Hi' & Hne).
+      destruct (w_text ind width req (S L) st1 (0%nat :: rp) None [SP] None aft) as [cs st2]. rewrite wk_nil. cbn [fst snd] in *.
+      destruct (closing_sees L st2) as (wc & Hwc & Hsc). pose proof (closing_nonneg L st2 (proj1 Hi')) as Hnc.
+      destruct (closing_of L st2) as [c1 st3]. cbn [fst snd] in *. split; [|exact Hnc].
+      assert (Hall : sees ([KRaw w0] ++ (cs ++ []) ++ c1) (w0 ++ (w' ++ []) ++ wc))
+        by (apply sees_app; [exact Hs0|apply sees_app; [apply sees_app; [exact Hs|apply sees_nil]|exact Hsc]]).
+      specialize (Hall []). rewrite app_nil_r in Hall. rewrite Hall. rewrite Nv_nil. cbn [ctext]. rewrite !app_nil_r.
+      rewrite Hk0 by exact Ho. rewrite txt_nonnull by reflexivity.
+      apply wvk_only_space; [|discriminate].
+      apply (all_ws_app NL); [apply all_ws_NL|apply all_ws_app; assumption].
+    - (* an ordinary child list *)
+      intros l Hl IH Hne Hcls Hnm L rp aft st Ho. unfold kfn.
+      destruct (emit_ws_step st [] None (hd_error l) NL (winv_pos st _ _ Ho) ws_indent_NL (or_intror (legal_none _)))
+        as (w0 & E0 & Hw0 & Hs0 & Hi0 & Hk0).
+      assert (Hoff : w_off (snd (emit_raw st NL)) = 0%Z).
+      { unfold emit_raw. pose proof (emit_NL_off st) as H. destruct (emit st NL). exact H. }
+      destruct (emit_raw st NL) as [c0 st1]. cbn [fst snd] in *. subst c0.
+      assert (Hcl : cl_ok Start l).
+      { destruct l as [|x [|y r]]; [congruence| |destruct x; right; exact Hcls].
+        destruct x; try (right; exact Hcls). left. split; [reflexivity|eexists; reflexivity]. }
+      specialize (IH Hcl Hnm (S L) rp aft (length l) st1 O None ([] ++ w0) (fun s => fst (closing_of L s))
+                     (fun s => closing_sees L s) Hi0).
+      destruct (wkids (S L) rp aft (length l) st1 0 None l) as [cs st2]. cbn [fst snd] in *.
+      destruct IH as [Hn2 IH]. specialize (IH eq_refl Hoff Hne).
+      pose proof (closing_nonneg L st2 Hn2) as Hnc.
+      unfold OUTw in IH. cbn [fst snd] in IH.
+      destruct (closing_of L st2) as [c1 st3]. cbn [fst snd] in *. split; [|exact Hnc].
+      apply wvk_list. cbn [app] in IH.
+      change ([KRaw w0] ++ cs ++ c1) with ([KRaw w0] ++ (cs ++ c1)). rewrite map_app, (Hs0 (map seen (cs ++ c1))).
+      exact IH.
+  Qed.
 End Main.
